@@ -278,6 +278,7 @@ func CheckC06(e *Env) (int, error) {
 	var trouble error
 	distinct, coldCases, coldProcs, maxSeededDistinct := 0, 0, 0, map[int]int{}
 	seamUnavailable := 0
+	postPanicHang := 0
 	var samples []interface{}
 	var od OrderedDigest
 	e.Logf("C06: %d jobs", len(jobs))
@@ -291,6 +292,10 @@ func CheckC06(e *Env) (int, error) {
 		p, err := e.RunJSON(bin, "c06", j, &r, 20*time.Minute)
 		mu.Lock()
 		defer mu.Unlock()
+		if err == nil && j.Kind == "panics" && p.Exit == 6 {
+			postPanicHang++ // the call after a source panic never returned (e.g. a lock the panic left held): not judged
+			return
+		}
 		if err == nil && j.cold && p.Exit == 4 {
 			seamUnavailable++ // the tree's default source is not crypto/rand.Reader (C07's business): hook-free runs impossible
 			return
@@ -357,7 +362,7 @@ func CheckC06(e *Env) (int, error) {
 	cov := map[string]interface{}{
 		"evaluations":                 tot.Cases,
 		"distinct_nontrivial":         distinct,
-		"rule":                        "a case = NewMnemonic(n, lang) against one device script; enumerated families (every failure point k x 8 error kinds (EOF, unexpected EOF, plain, wrapped EOF, closed pipe, Temporary()/Timeout(), EAGAIN, EINTR) x own-read/with-bytes x 3 fragmentations; a Read that panics (string or error value) at every failure point; error with the buffer-completing bytes; all compositions of need for the listed n; structured splits; stalls at every position) plus seeded compositions and seeded multi-fault scripts. Non-trivial: the device delivered >=1 byte or returned >=1 fault inside the call. Distinct: by digest of (n, sequence of (asked, delivered, error kind)); de-duplicated inside each worker job, jobs of different families/ranges are disjoint by construction, for chunked seeded jobs only the largest chunk per n is counted; cold-start repetitions are not counted.",
+		"rule":                        "a case = NewMnemonic(n, lang) against one device script; enumerated families (every failure point k x 10 error kinds (EOF, unexpected EOF, plain, wrapped EOF, closed pipe, Temporary()/Timeout(), EAGAIN, EINTR, an error whose Is() matches every target, the same wrapped) x own-read/with-bytes x 3 fragmentations; a Read that panics (string or error value) at every failure point; error with the buffer-completing bytes; all compositions of need for the listed n; structured splits; stalls at every position) plus seeded compositions and seeded multi-fault scripts. Non-trivial: the device delivered >=1 byte or returned >=1 fault inside the call. Distinct: by digest of (n, sequence of (asked, delivered, error kind)); de-duplicated inside each worker job, jobs of different families/ranges are disjoint by construction, for chunked seeded jobs only the largest chunk per n is counted; cold-start repetitions are not counted.",
 		"exhaustive":                  false,
 		"exhaustive_parts":            "every (n,k,error kind,own/with-bytes) failure point; all 2^(need-1) compositions for n=12 (quick) and n=12,15,18 (thorough); every stall position",
 		"samples":                     samples,
@@ -366,6 +371,7 @@ func CheckC06(e *Env) (int, error) {
 		"cold_start_processes":        coldProcs,
 		"cold_start_cases":            coldCases,
 		"cold_start_seam_unavailable": seamUnavailable,
+		"calls_after_a_source_panic_that_never_returned_not_judged": postPanicHang,
 		"sim_steps_total":             tot.Reads,
 		"sim_time_note":               "the system has no clock; simulated time is counted in device reads",
 		"faults_fired":                tot.Fired,
